@@ -170,6 +170,32 @@ func linesWith(d []string, prefixes ...string) []string {
 	return out
 }
 
+// TxAddressee: the one tenant every message of a transaction is addressed to (0: none, several, or a message that is not a
+// settlement message addressed to a tenant).
+func TxAddressee(f []string) int {
+	t := parseTx(f)
+	if len(t.msgs) == 0 {
+		return 0
+	}
+	ten := 0
+	for _, m := range t.msgs {
+		switch m.kind {
+		case "deposit", "record", "cancel", "addadmin", "rmadmin", "setperiod":
+			if len(m.args) < 2 {
+				return 0
+			}
+			k := int(pu(m.args[1]))
+			if k == 0 || (ten != 0 && ten != k) {
+				return 0
+			}
+			ten = k
+		default:
+			return 0
+		}
+	}
+	return ten
+}
+
 // ---------- C03 ----------
 
 func monC03(tr *Trace, br map[string]int) (out []Violation) {
@@ -256,6 +282,12 @@ func walkLeaves(ms []*mexpr, depth int, f func(m *mexpr, depth int)) {
 
 func monC04(tr *Trace, br map[string]int) (out []Violation) {
 	walk(tr, func(c *ctxStep) {
+		if c.op[0] == "genesis" {
+			br["c04:first-block-after-restart"]++
+			if strings.Contains(strings.Join(c.res, " "), "restricted-message-admitted-after-restart") {
+				out = append(out, viol("C04", "restricted-admitted-after-restart", c.i, "%s", tr.Steps[c.i].Detail))
+			}
+		}
 		if c.op[0] != "tx" {
 			return
 		}
@@ -424,6 +456,27 @@ func monC16(tr *Trace, br map[string]int) (out []Violation) {
 					own.Add(own, bigOf(m.args[2]))
 				}
 			}
+		}
+		// nothing is charged in any other denomination, to anybody's benefit
+		for _, od := range []string{"uusdc", "setl"} {
+			if od == denom {
+				continue
+			}
+			ownOther := big.NewInt(0)
+			if c.res[0] == "ok" {
+				for _, m := range t.msgs {
+					if m.kind == "deposit" && acctOf(m.args[0]) == payer && strings.TrimPrefix(m.args[3], "=") == od {
+						ownOther.Add(ownOther, bigOf(m.args[2]))
+					}
+				}
+			}
+			if paid := new(big.Int).Neg(new(big.Int).Add(delta(payer, od), ownOther)); paid.Sign() != 0 || delta("pool", od).Sign() != 0 {
+				out = append(out, viol("C16", "charged-in-other-denomination", c.i, "first covered denomination is %s (fee %s), yet payer %s paid %s %s and the oracle pool received %s %s (gas %d, offered %v)",
+					denom, fee, payer, paid, od, delta("pool", od), od, gas, t.fee))
+			}
+		}
+		if c.res[0] != "ok" && strings.Contains(tr.Steps[c.i].Detail, "insufficient fee") {
+			out = append(out, viol("C16", "covered-offer-refused", c.i, "offer %v covers %s %s (gas %d) and is refused as insufficient: %.200s", t.fee, fee, denom, gas, tr.Steps[c.i].Detail))
 		}
 		oraclePart := new(big.Int).Quo(new(big.Int).Mul(fee, q), one18)
 		collPart := new(big.Int).Quo(new(big.Int).Mul(fee, new(big.Int).Sub(one18, q)), one18)
